@@ -33,6 +33,9 @@ theorem contentKey_of_not_identLike (d a : Val) (h : isIdentLike a = false) : co
 theorem contentPartKey_of_not_identLike (d a : Val) (h : isIdentLike a = false) : contentPartKey d a = d := by
   cases a <;> simp [isIdentLike] at h <;> simp [contentPartKey]
 
+theorem orderedKey_of_not_identLike (d a : Val) (h : isIdentLike a = false) : orderedKey d a = d := by
+  cases a <;> simp [isIdentLike] at h <;> simp [orderedKey]
+
 theorem itemsKey_of_not_dict (d a : Val) (h : ∀ k, a ≠ .dict k) : itemsKey d a = d := by
   cases a <;> simp [itemsKey]
   exact absurd rfl (h _)
@@ -125,7 +128,12 @@ theorem field_step (T : Table) (hm : HashMode) (cm : CmpMode) (h h' : Val)
         simpa only [contentPartKey_of_not_identLike _ h hi, contentPartKey_of_not_identLike _ h' hi'] using hk
       | true =>
         cases h <;> simp [isIdentLike] at hi <;> cases h' <;> simp [eqContent, eqV] at he <;>
-          simp [contentPartKey, keyEqv, he]
+          simp [contentPartKey, keyEqv, partOf, he]
+  | orderedContent =>
+    have lw' : isIdentLike h = false ∧ lawful T h = true := by
+      cases cm <;> simpa [fieldLawful] using lw
+    obtain ⟨_, hk, hi'⟩ := generic lw'.1 lw'.2
+    simpa only [orderedKey_of_not_identLike _ h lw'.1, orderedKey_of_not_identLike _ h' hi'] using hk
   | orderedItems =>
     by_cases hd : ∃ k, h = .dict k
     · obtain ⟨a, ha⟩ := hd
